@@ -173,6 +173,19 @@ def check(case: dict, ctx: Ctx) -> None:
             require(y2.ok and P.plain_mark(y2.value) == m_p, "mark:schema.mark_from_json", "differs")
             if m_p[1]:
                 ctx.nontrivial(["mark", sk, m_p])
+        # marks obtained from the schema without attributes are the type's SHARED default instance
+        for name in rs.mark_names:
+            d = rs.default_attrs("mark", name)
+            if d:
+                shared = call("schema.mark", lib.mark, name)
+                require(shared.ok, "mark:create-raised", repr(shared.exc))
+                _roundtrip("mark", shared.value, lambda x: x.to_json(), lambda j: Mark.from_json(lib, j), P.plain_mark, ctx)
+                again = call("schema.mark", lib.mark, name)
+                require(again.ok and P.plain_mark(again.value) == [name, d], "mark:shared-instance-changed", f"schema.mark({name!r}) no longer has the default attributes: {P.plain_mark(again.value) if again.ok else again.exc!r}")
+                txt = lib.text("x", [shared.value])
+                _roundtrip("node", txt, lambda x: x.to_json(), lambda j: Node.from_json(lib, j), P.plain, ctx)
+                ctx.label("mark:shared-default-instance")
+                ctx.nontrivial(["mark-shared", sk, name])
         ctx.label("kind:mark")
         return
     # ---- steps
